@@ -268,12 +268,22 @@ namespace nmtools::array::hip
             auto gpu_out_shape = this->create_buffer(out_shape);
 
             auto warp_size   = 32;
+            #if defined(NMTOOLS_VERIF) && defined(NMTOOLS_VERIF_WARP_SIZE)
+            warp_size = NMTOOLS_VERIF_WARP_SIZE(warp_size);
+            #endif
             auto thread_size = size_t(std::ceil(float(out_size) / warp_size)) * warp_size;
 
+            #if defined(NMTOOLS_VERIF) && defined(NMTOOLS_VERIF_SIM_LAUNCH)
+            NMTOOLS_VERIF_SIM_LAUNCH(nm_hip_run_function,thread_size,warp_size)(f
+                ,output_buffer.get(),gpu_out_shape.get(),out_dim
+                ,utl::tuple{get_(nmtools::get<Is>(args_pack))...}
+            );
+            #else
             nm_hip_run_function<<<thread_size,warp_size>>>(f
                 ,output_buffer.get(),gpu_out_shape.get(),out_dim
                 ,utl::tuple{get_(nmtools::get<Is>(args_pack))...}
             );
+            #endif
 
             auto status = hipDeviceSynchronize();
             if (status != hipSuccess) {
